@@ -56,8 +56,84 @@ Proof.
   intros (V & A). destruct (Valid_absolute_shape n V A) as (ls & -> & HF). apply Dec_plain_ls. exact HF.
 Qed.
 
+
+(* ---------- names relative to an origin ---------- *)
+Definition org_ok (o : option name) : Prop := match o with Some org => name_ok org | None => True end.
+
+(* a name of a message rendered with origin o: absolute and not below the origin (so that
+   parsing with the origin leaves it alone), or relative with name ++ origin valid *)
+Definition name_wf (o : option name) (n : name) : Prop :=
+  (name_ok n /\ match o with Some org => is_subdomain n org = false | None => True end)
+  \/ (exists org, o = Some org /\ is_absolute n = false /\ Valid (n ++ org)).
+
+Definition relz (o : option name) (n : name) : res name :=
+  match o with Some org => relativize n org | None => Ok n end.
+
+Lemma is_subdomain_ci a a' b : ci_equal a' a -> is_subdomain a' b = is_subdomain a b.
+Proof.
+  intros H.
+  assert (X : forall x y, ci_equal x y -> is_subdomain x b = true -> is_subdomain y b = true).
+  { intros x y Hxy Hs. apply is_subdomain_iff in Hs. destruct Hs as (A & p & s & -> & Hs).
+    apply is_subdomain_iff. split; [rewrite <- (ci_equal_absolute _ _ Hxy); exact A|].
+    pose proof (ci_equal_length _ _ Hxy) as L. rewrite app_length in L.
+    exists (firstn (length p) y), (skipn (length p) y). split; [symmetry; apply firstn_skipn|].
+    rewrite <- (firstn_skipn (length p) y) in Hxy.
+    apply ci_equal_app_inv in Hxy; [|rewrite firstn_length; lia].
+    destruct Hxy as (_ & H2). unfold ci_equal in *. congruence. }
+  destruct (is_subdomain a' b) eqn:E1; destruct (is_subdomain a b) eqn:E2; try reflexivity.
+  - rewrite (X _ _ H E1) in E2. discriminate.
+  - assert (H' : ci_equal a a') by (unfold ci_equal in *; congruence).
+    rewrite (X _ _ H' E2) in E1. discriminate.
+Qed.
+
+Lemma name_wf_full o n : org_ok o -> name_wf o n ->
+  exists L, full_labels n o = Ok L /\ name_ok L.
+Proof.
+  intros OO [(NO & _)|(org & -> & A & V)].
+  - exists n. split; [|exact NO]. destruct NO as (V & A). unfold full_labels. rewrite A. cbn [bind]. apply mk_name_valid. exact V.
+  - cbn in OO. destruct OO as (Vo & Ao). exists (n ++ org). unfold full_labels. rewrite A, Ao. cbn [bind].
+    split; [apply mk_name_valid; exact V|]. split; [exact V|].
+    destruct org as [|x org']; [discriminate|]. rewrite is_absolute_app. exact Ao.
+Qed.
+
+(* what the reader makes of the decoded labels *)
+Lemma name_back o n L L' :
+  org_ok o -> name_wf o n -> full_labels n o = Ok L -> ci_equal L' L -> name_ok L' ->
+  exists n', relz o L' = Ok n' /\ ci_equal n' n /\ name_wf o n'.
+Proof.
+  intros OO [(NO & NS)|(org & -> & A & V)] HF CI NO'.
+  - assert (L = n).
+    { destruct NO as (V & A). unfold full_labels in HF. rewrite A in HF. cbn [bind] in HF.
+      rewrite (mk_name_valid _ V) in HF. congruence. }
+    subst L. exists L'. destruct o as [org|]; cbn [relz].
+    + unfold relativize. rewrite (is_subdomain_ci _ _ _ CI), NS. split; [reflexivity|]. split; [exact CI|].
+      left. split; [exact NO'|]. rewrite (is_subdomain_ci _ _ _ CI). exact NS.
+    + split; [reflexivity|]. split; [exact CI|]. left. auto.
+  - cbn in OO. destruct OO as (Vo & Ao).
+    assert (L = n ++ org).
+    { unfold full_labels in HF. rewrite A, Ao in HF. cbn [bind] in HF. rewrite (mk_name_valid _ V) in HF. congruence. }
+    subst L. cbn [relz].
+    pose proof (ci_equal_length _ _ CI) as Ln. rewrite app_length in Ln.
+    set (p := firstn (length n) L'). set (s := skipn (length n) L').
+    assert (EL : L' = p ++ s) by (symmetry; apply firstn_skipn).
+    assert (Lp : length p = length n) by (unfold p; rewrite firstn_length; lia).
+    rewrite EL in CI. apply ci_equal_app_inv in CI; [|exact Lp]. destruct CI as (C1 & C2).
+    assert (Sd : is_subdomain L' org = true).
+    { apply is_subdomain_iff. split; [rewrite (proj2 NO'); symmetry; exact Ao|]. exists p, s. auto. }
+    destruct (rel_derel L' org (proj1 NO') Sd) as (r & HR & E1 & E2 & _).
+    exists r. split; [exact HR|].
+    assert (r = p).
+    { pose proof (ci_equal_length _ _ E2) as L2. rewrite skipn_length in L2.
+      assert (length r = length p).
+      { pose proof (f_equal (@length label) E1) as E1'. rewrite app_length, skipn_length in E1'. lia. }
+      rewrite EL in E1. apply app_inj_len in E1; [|symmetry; assumption]. destruct E1 as (-> & _). reflexivity. }
+    subst r. split; [exact C1|]. right. exists org. split; [reflexivity|].
+    split; [rewrite (ci_equal_absolute _ _ C1); exact A|].
+    eapply Valid_ci; [|exact V]. apply ci_equal_app; [unfold ci_equal in *; congruence|reflexivity].
+Qed.
+
 (* ---------- one name ---------- *)
-Lemma full_labels_abs n : name_ok n -> full_labels n None = Ok n.
+Lemma full_labels_abs n o : name_ok n -> full_labels n o = Ok n.
 Proof. intros (V & A). unfold full_labels. rewrite A. cbn [bind]. apply mk_name_valid. exact V. Qed.
 
 Lemma TableSound_app file t em : TableSound file t -> TableSound (file ++ em) t.
@@ -66,21 +142,22 @@ Proof.
   exists ls, h. split; [apply Dec_app; exact D|exact R].
 Qed.
 
-Lemma nm_em_sound n c file t em t' :
-  TableSound file t -> name_ok n -> nm_em n None c (zlen file) t = Ok (em, t') ->
+(* writing the labels L (the name made absolute with the origin) *)
+Lemma nm_em_sound n o L c file t em t' :
+  TableSound file t -> full_labels n o = Ok L -> name_ok L -> nm_em n o c (zlen file) t = Ok (em, t') ->
   TableSound (file ++ em) t' /\
-  exists n', ci_equal n' n /\ name_ok n' /\
-             Dec (file ++ em) (length file) (length file) n' (length (file ++ em)).
+  exists L', ci_equal L' L /\ name_ok L' /\
+             Dec (file ++ em) (length file) (length file) L' (length (file ++ em)).
 Proof.
-  intros TS NO H. unfold nm_em in H. rewrite (full_labels_abs n NO) in H. cbn [bind] in H.
+  intros TS HF NO H. unfold nm_em in H. rewrite HF in H. cbn [bind] in H.
   destruct NO as (V & A). destruct c.
-  - pose proof (tw_loop_em n file t) as L. injection H as H. rewrite H in L. cbn [fst snd] in L.
-    destruct (tw_loop_dec n file t _ _ TS V A L) as (em' & ls & Ef & TS' & D & R & Vl).
+  - pose proof (tw_loop_em L file t) as E. injection H as H. rewrite H in E. cbn [fst snd] in E.
+    destruct (tw_loop_dec L file t _ _ TS V A E) as (em' & ls & Ef & TS' & D & R & Vl).
     split; [exact TS'|]. exists ls. split; [exact R|]. split; [|exact D].
     split; [exact Vl|]. rewrite (ci_equal_absolute _ _ R). exact A.
   - injection H as <- <-. split; [apply TableSound_app; exact TS|].
-    exists n. split; [reflexivity|]. split; [split; assumption|].
-    rewrite app_length. rewrite <- (app_nil_r (file ++ wire_labels false n)), <- app_assoc.
+    exists L. split; [reflexivity|]. split; [split; assumption|].
+    rewrite app_length. rewrite <- (app_nil_r (file ++ wire_labels false L)), <- app_assoc.
     apply Dec_plain. split; assumption.
 Qed.
 
@@ -89,6 +166,22 @@ Lemma nm_read file em ext endp n' :
   (length (file ++ em) <= endp)%nat ->
   nm_from_wire ((file ++ em) ++ ext) endp (length file) = Ok (n', length (file ++ em)).
 Proof. intros (V & _) D H. apply nm_from_wire_Dec; assumption. Qed.
+
+Lemma get_name_relz o w endp cur :
+  org_ok o -> get_name w o endp cur = do nc <- nm_from_wire w endp cur; do n <- relz o (fst nc); Ok (n, snd nc).
+Proof.
+  intros OO. unfold get_name, relz. destruct o as [[|x org]|].
+  - destruct OO as (_ & A). discriminate.
+  - reflexivity.
+  - destruct (nm_from_wire w endp cur) as [[n c]| |]; reflexivity.
+Qed.
+
+Lemma relz_total o L : org_ok o -> name_ok L -> exists x, relz o L = Ok x.
+Proof.
+  intros OO (V & A). destruct o as [org|]; cbn [relz]; [|eauto].
+  unfold relativize. destruct (is_subdomain L org) eqn:E; [|eauto].
+  destruct (rel_derel L org V E) as (r & HR & _). unfold relativize in HR. rewrite E in HR. eauto.
+Qed.
 
 (* ---------- reading literal octets ---------- *)
 Lemma firstn_skipn_mid {A} (pre b post : list A) :
@@ -149,8 +242,8 @@ Proof.
 Qed.
 
 (* ---------- RDATA by schema ---------- *)
-Definition piece_ok (p : piece) : Prop :=
-  match p with PB _ => True | PN n | PU n => name_ok n end.
+Definition piece_wf (o : option name) (p : piece) : Prop :=
+  match p with PB _ => True | PN n | PU n => name_wf o n end.
 
 Definition piece_ci (a b : piece) : Prop :=
   match a, b with
@@ -172,7 +265,7 @@ Inductive shaped : list fld -> rdata -> Prop :=
 | sh_fix n b fs r : length b = n -> shaped fs r -> shaped (FFix n :: fs) (PB b :: r)
 | sh_namec n fs r : shaped fs r -> shaped (FNameC :: fs) (PN n :: r)
 | sh_nameu n fs r : shaped fs r -> shaped (FNameU :: fs) (PU n :: r)
-| sh_namea n fs r : shaped fs r -> shaped (FNameA :: fs) (PU n :: r)
+| sh_namea n fs r : name_ok n -> shaped fs r -> shaped (FNameA :: fs) (PU n :: r)
 | sh_rest b : shaped [FRest] [PB b]
 | sh_cnt16 d fs r : zlen d <= 65535 -> shaped fs r -> shaped (FCnt16 :: fs) (PB (MessageM.u16 (zlen d) ++ d) :: r)
 | sh_max16 mx v fs r : 0 <= v <= mx -> v <= 65535 -> shaped fs r -> shaped (FMax16 mx :: fs) (PB (MessageM.u16 v) :: r)
@@ -216,16 +309,16 @@ Qed.
 Lemma rdata_ci_refl_pb b r r' : rdata_ci r' r -> rdata_ci (PB b :: r') (PB b :: r).
 Proof. intros H. constructor; [reflexivity|exact H]. Qed.
 
-Lemma rd_em_read : forall fs rd, shaped fs rd ->
+Lemma rd_em_read o : org_ok o -> forall fs rd, shaped fs rd ->
   forall c file t em t',
-    TableSound file t -> Forall piece_ok rd -> rd_em rd None c (zlen file) t = Ok (em, t') ->
+    TableSound file t -> Forall (piece_wf o) rd -> rd_em rd o c (zlen file) t = Ok (em, t') ->
     TableSound (file ++ em) t' /\
-    exists rd', rdata_ci rd' rd /\ Forall piece_ok rd' /\ shaped fs rd' /\
+    exists rd', rdata_ci rd' rd /\ Forall (piece_wf o) rd' /\ shaped fs rd' /\
       forall ext acc,
-        dec_fields ((file ++ em) ++ ext) fs None (length (file ++ em)) (length file) acc
+        dec_fields ((file ++ em) ++ ext) fs o (length (file ++ em)) (length file) acc
         = Ok (rev acc ++ rd', length (file ++ em)).
 Proof.
-  intros fs rd S. induction S as [|n b fs r Hb S IH|n fs r S IH|n fs r S IH|n fs r S IH|b|d fs r Hd S IH|mx v fs r Hv Hv2 S IH|b Hb];
+  intros OO fs rd S. induction S as [|n b fs r Hb S IH|n fs r S IH|n fs r S IH|n fs r NOa S IH|b|d fs r Hd S IH|mx v fs r Hv Hv2 S IH|b Hb];
     intros c file t em t' TS PO H.
   - injection H as <- <-. rewrite app_nil_r. split; [exact TS|]. exists []. repeat split; try constructor.
     intros ext acc. cbn [dec_fields]. rewrite app_nil_r. reflexivity.
@@ -246,45 +339,55 @@ Proof.
   - (* FNameC *)
     cbn [rd_em] in H. apply bind_ok in H. destruct H as ([e1 t1] & H1 & H).
     apply bind_ok in H. destruct H as ([e2 t2] & H2 & H). injection H as <- <-. cbn [fst snd] in *.
-    inversion PO as [|? ? NO PO']; subst. cbn [piece_ok] in NO.
-    destruct (nm_em_sound _ _ _ _ _ _ TS NO H1) as (TS1 & n' & CI1 & NO1 & D1).
+    inversion PO as [|? ? NW PO']; subst. cbn [piece_wf] in NW.
+    destruct (name_wf_full o n OO NW) as (L & HF & NOL).
+    destruct (nm_em_sound _ _ _ _ _ _ _ _ TS HF NOL H1) as (TS1 & L' & CIL & NO1 & D1).
+    destruct (name_back o n L L' OO NW HF CIL NO1) as (n' & HRZ & CI1 & NW1).
     rewrite <- zlen_app' in H2.
     destruct (IH c (file ++ e1) t1 e2 t2 TS1 PO' H2) as (TS' & rd' & CI & PO2 & S' & RD).
     rewrite <- app_assoc in TS'. split; [exact TS'|]. exists (PN n' :: rd').
-    split; [constructor; [exact CI1|exact CI]|]. split; [constructor; [exact NO1|exact PO2]|].
+    split; [constructor; [exact CI1|exact CI]|]. split; [constructor; [exact NW1|exact PO2]|].
     split; [constructor; exact S'|].
-    intros ext acc. cbn [dec_fields]. unfold get_name.
+    intros ext acc. cbn [dec_fields]. rewrite (get_name_relz o _ _ _ OO).
     replace ((file ++ e1 ++ e2) ++ ext) with ((file ++ e1) ++ (e2 ++ ext)) by (rewrite <- !app_assoc; reflexivity).
-    rewrite (nm_read file e1 (e2 ++ ext) _ n' NO1 D1) by (rewrite !app_length; lia). cbn [bind fst snd].
+    rewrite (nm_read file e1 (e2 ++ ext) _ L' NO1 D1) by (rewrite !app_length; lia). cbn [bind fst snd].
+    rewrite HRZ. cbn [bind fst snd].
     replace ((file ++ e1) ++ e2 ++ ext) with (((file ++ e1) ++ e2) ++ ext) by (rewrite <- !app_assoc; reflexivity).
     replace (length (file ++ e1 ++ e2)) with (length ((file ++ e1) ++ e2)) by (rewrite <- app_assoc; reflexivity).
     rewrite RD. cbn [rev]. rewrite <- app_assoc. reflexivity.
   - (* FNameU *)
     cbn [rd_em] in H. apply bind_ok in H. destruct H as ([e1 t1] & H1 & H).
     apply bind_ok in H. destruct H as ([e2 t2] & H2 & H). injection H as <- <-. cbn [fst snd] in *.
-    inversion PO as [|? ? NO PO']; subst. cbn [piece_ok] in NO.
-    destruct (nm_em_sound _ _ _ _ _ _ TS NO H1) as (TS1 & n' & CI1 & NO1 & D1).
+    inversion PO as [|? ? NW PO']; subst. cbn [piece_wf] in NW.
+    destruct (name_wf_full o n OO NW) as (L & HF & NOL).
+    destruct (nm_em_sound _ _ _ _ _ _ _ _ TS HF NOL H1) as (TS1 & L' & CIL & NO1 & D1).
+    destruct (name_back o n L L' OO NW HF CIL NO1) as (n' & HRZ & CI1 & NW1).
     rewrite <- zlen_app' in H2.
     destruct (IH c (file ++ e1) t1 e2 t2 TS1 PO' H2) as (TS' & rd' & CI & PO2 & S' & RD).
     rewrite <- app_assoc in TS'. split; [exact TS'|]. exists (PU n' :: rd').
-    split; [constructor; [exact CI1|exact CI]|]. split; [constructor; [exact NO1|exact PO2]|].
+    split; [constructor; [exact CI1|exact CI]|]. split; [constructor; [exact NW1|exact PO2]|].
     split; [constructor; exact S'|].
-    intros ext acc. cbn [dec_fields]. unfold get_name.
+    intros ext acc. cbn [dec_fields]. rewrite (get_name_relz o _ _ _ OO).
     replace ((file ++ e1 ++ e2) ++ ext) with ((file ++ e1) ++ (e2 ++ ext)) by (rewrite <- !app_assoc; reflexivity).
-    rewrite (nm_read file e1 (e2 ++ ext) _ n' NO1 D1) by (rewrite !app_length; lia). cbn [bind fst snd].
+    rewrite (nm_read file e1 (e2 ++ ext) _ L' NO1 D1) by (rewrite !app_length; lia). cbn [bind fst snd].
+    rewrite HRZ. cbn [bind fst snd].
     replace ((file ++ e1) ++ e2 ++ ext) with (((file ++ e1) ++ e2) ++ ext) by (rewrite <- !app_assoc; reflexivity).
     replace (length (file ++ e1 ++ e2)) with (length ((file ++ e1) ++ e2)) by (rewrite <- app_assoc; reflexivity).
     rewrite RD. cbn [rev]. rewrite <- app_assoc. reflexivity.
   - (* FNameA *)
     cbn [rd_em] in H. apply bind_ok in H. destruct H as ([e1 t1] & H1 & H).
     apply bind_ok in H. destruct H as ([e2 t2] & H2 & H). injection H as <- <-. cbn [fst snd] in *.
-    inversion PO as [|? ? NO PO']; subst. cbn [piece_ok] in NO.
-    destruct (nm_em_sound _ _ _ _ _ _ TS NO H1) as (TS1 & n' & CI1 & NO1 & D1).
+    inversion PO as [|? ? NW PO']; subst. cbn [piece_wf] in NW.
+    destruct (nm_em_sound _ _ _ _ _ _ _ _ TS (full_labels_abs n o NOa) NOa H1) as (TS1 & n' & CI1 & NO1 & D1).
+    assert (NW1 : name_wf o n').
+    { left. split; [exact NO1|]. destruct o as [org|]; [|exact Logic.I].
+      destruct NW as [(_ & NS)|(org' & _ & A & _)]; [|destruct NOa as (_ & A'); congruence].
+      rewrite (is_subdomain_ci _ _ _ CI1). exact NS. }
     rewrite <- zlen_app' in H2.
     destruct (IH c (file ++ e1) t1 e2 t2 TS1 PO' H2) as (TS' & rd' & CI & PO2 & S' & RD).
     rewrite <- app_assoc in TS'. split; [exact TS'|]. exists (PU n' :: rd').
-    split; [constructor; [exact CI1|exact CI]|]. split; [constructor; [exact NO1|exact PO2]|].
-    split; [constructor; exact S'|].
+    split; [constructor; [exact CI1|exact CI]|]. split; [constructor; [exact NW1|exact PO2]|].
+    split; [constructor; [exact NO1|exact S']|].
     intros ext acc. cbn [dec_fields]. unfold get_name.
     replace ((file ++ e1 ++ e2) ++ ext) with ((file ++ e1) ++ (e2 ++ ext)) by (rewrite <- !app_assoc; reflexivity).
     rewrite (nm_read file e1 (e2 ++ ext) _ n' NO1 D1) by (rewrite !app_length; lia). cbn [bind fst snd].
@@ -359,21 +462,23 @@ Proof.
 Qed.
 
 (* ---------- one RR ---------- *)
-Lemma rr_em_read fs owner ty cl ttl rd oc rc file t em t' :
-  TableSound file t -> name_ok owner -> Forall piece_ok rd -> shaped fs rd ->
-  rr_em owner ty cl ttl rd None None oc rc (zlen file) t = Ok (em, t') ->
+Lemma rr_em_read o ro fs owner Lown ty cl ttl rd oc rc file t em t' :
+  org_ok o -> org_ok ro -> TableSound file t -> full_labels owner o = Ok Lown -> name_ok Lown ->
+  Forall (piece_wf ro) rd -> shaped fs rd ->
+  rr_em owner ty cl ttl rd o ro oc rc (zlen file) t = Ok (em, t') ->
   TableSound (file ++ em) t' /\
   0 <= ty <= 65535 /\ 0 <= cl <= 65535 /\ 0 <= ttl <= 4294967295 /\
-  exists owner' rd' (c1 rdl : nat),
-    ci_equal owner' owner /\ name_ok owner' /\ rdata_ci rd' rd /\ Forall piece_ok rd' /\ shaped fs rd' /\
+  exists owner' x rd' (c1 rdl : nat),
+    ci_equal owner' Lown /\ name_ok owner' /\ relz o owner' = Ok x /\
+    rdata_ci rd' rd /\ Forall (piece_wf ro) rd' /\ shaped fs rd' /\
     (c1 + 10 + rdl = length (file ++ em))%nat /\ (length file < c1)%nat /\ Z.of_nat rdl <= 65535 /\
     forall ext,
-      rr_head ((file ++ em) ++ ext) None (length file)
-        = Ok (owner', owner', c1, ty, cl, ttl, Z.of_nat rdl) /\
-      forall acc, dec_fields ((file ++ em) ++ ext) fs None (length (file ++ em)) (c1 + 10) acc
+      rr_head ((file ++ em) ++ ext) o (length file)
+        = Ok (owner', x, c1, ty, cl, ttl, Z.of_nat rdl) /\
+      forall acc, dec_fields ((file ++ em) ++ ext) fs ro (length (file ++ em)) (c1 + 10) acc
                   = Ok (rev acc ++ rd', length (file ++ em)).
 Proof.
-  intros TS NO PO S H. unfold rr_em in H.
+  intros OO OR TS HFo NO PO S H. unfold rr_em in H.
   apply bind_ok in H. destruct H as ([e1 t1] & H1 & H).
   apply bind_ok in H. destruct H as (h1 & E1 & H). apply bind_ok in H. destruct H as (h2 & E2 & H).
   apply bind_ok in H. destruct H as (h3 & E3 & H). apply bind_ok in H. destruct H as ([e2 t2] & H2 & H).
@@ -382,25 +487,27 @@ Proof.
   injection H as <- <-.
   apply pack16_ok in E1, E2. apply pack32_ok in E3. destruct E1 as (-> & R1). destruct E2 as (-> & R2). destruct E3 as (-> & R3).
   subst h4.
-  destruct (nm_em_sound _ _ _ _ _ _ TS NO H1) as (TS1 & owner' & CI1 & NO1 & D1).
+  destruct (nm_em_sound _ _ _ _ _ _ _ _ TS HFo NO H1) as (TS1 & owner' & CI1 & NO1 & D1).
+  destruct (relz_total o owner' OO NO1) as (x & HX).
   set (hdr := MessageM.u16 ty ++ MessageM.u16 cl ++ MessageM.u32 ttl ++ MessageM.u16 (zlen e2)).
   assert (Hh : length hdr = 10%nat) by reflexivity.
   set (file1 := (file ++ e1) ++ hdr).
   assert (Hpos : zlen file + zlen e1 + 10 = zlen file1).
   { unfold file1. rewrite !zlen_app'. unfold zlen at 5. rewrite Hh. lia. }
   rewrite Hpos in H2.
-  destruct (rd_em_read fs rd S rc file1 t1 e2 t2 (TableSound_app _ _ _ TS1) PO H2) as (TS2 & rd' & CI2 & PO2 & S2 & RD).
+  destruct (rd_em_read ro OR fs rd S rc file1 t1 e2 t2 (TableSound_app _ _ _ TS1) PO H2) as (TS2 & rd' & CI2 & PO2 & S2 & RD).
   assert (Eq : file ++ e1 ++ MessageM.u16 ty ++ MessageM.u16 cl ++ MessageM.u32 ttl ++ MessageM.u16 (zlen e2) ++ e2 = file1 ++ e2).
   { unfold file1, hdr. rewrite <- !app_assoc. reflexivity. }
   rewrite Eq. split; [exact TS2|]. split; [exact R1|]. split; [exact R2|]. split; [exact R3|].
-  exists owner', rd', (length (file ++ e1)), (length e2).
-  split; [exact CI1|]. split; [exact NO1|]. split; [exact CI2|]. split; [exact PO2|]. split; [exact S2|].
+  exists owner', x, rd', (length (file ++ e1)), (length e2).
+  split; [exact CI1|]. split; [exact NO1|]. split; [exact HX|]. split; [exact CI2|]. split; [exact PO2|]. split; [exact S2|].
   pose proof (Dec_bounds _ _ _ _ _ D1) as (B1 & B2 & B3).
   split; [unfold file1; rewrite !app_length; lia|]. split; [lia|]. split; [unfold zlen in Hlen; lia|].
   intros ext. split.
   - unfold rr_head.
     replace ((file1 ++ e2) ++ ext) with ((file ++ e1) ++ (hdr ++ e2 ++ ext)) by (unfold file1; rewrite <- !app_assoc; reflexivity).
     rewrite (nm_read file e1 _ _ owner' NO1 D1) by (rewrite !app_length; lia). cbn [bind fst snd].
+    change (match o with Some o0 => relativize owner' o0 | None => Ok owner' end) with (relz o owner'). rewrite HX. cbn [bind].
     set (endp := length ((file ++ e1) ++ hdr ++ e2 ++ ext)).
     assert (He : (length (file ++ e1) + 10 <= endp)%nat) by (unfold endp; rewrite !app_length; lia).
     replace ((file ++ e1) ++ hdr ++ e2 ++ ext)
@@ -437,16 +544,16 @@ Definition rd_covers (ty : Z) (rd : rdata) : Z :=
   if ty =? tRRSIG then match rd with PB (a :: b :: _) :: _ => a * 256 + b | _ => 0 end else 0.
 
 (* what the wire holds at off: an RR that reads back as (owner', ty, cl, ttl, rd') and ends at end_ *)
-Definition RRreads (w : list Z) (off : nat) (owner' : name) (ty cl ttl : Z) (fs : list fld)
+Definition RRreads (o ro : option name) (w : list Z) (off : nat) (abs' owner' : name) (ty cl ttl : Z) (fs : list fld)
            (rd' : rdata) (end_ : nat) : Prop :=
   exists c1 rdl : nat,
     (c1 + 10 + rdl = end_)%nat /\ (end_ <= length w)%nat /\ (off < c1)%nat /\ Z.of_nat rdl <= 65535 /\
     forall ext,
-      rr_head (w ++ ext) None off = Ok (owner', owner', c1, ty, cl, ttl, Z.of_nat rdl) /\
-      forall acc, dec_fields (w ++ ext) fs None end_ (c1 + 10) acc = Ok (rev acc ++ rd', end_).
+      rr_head (w ++ ext) o off = Ok (abs', owner', c1, ty, cl, ttl, Z.of_nat rdl) /\
+      forall acc, dec_fields (w ++ ext) fs ro end_ (c1 + 10) acc = Ok (rev acc ++ rd', end_).
 
-Lemma RRreads_app w more off owner' ty cl ttl fs rd' end_ :
-  RRreads w off owner' ty cl ttl fs rd' end_ -> RRreads (w ++ more) off owner' ty cl ttl fs rd' end_.
+Lemma RRreads_app o ro w more off abs' owner' ty cl ttl fs rd' end_ :
+  RRreads o ro w off abs' owner' ty cl ttl fs rd' end_ -> RRreads o ro (w ++ more) off abs' owner' ty cl ttl fs rd' end_.
 Proof.
   intros (c1 & rdl & A & B & C & D & E). exists c1, rdl. repeat split; try assumption.
   - rewrite app_length. lia.
@@ -454,10 +561,10 @@ Proof.
   - rewrite <- app_assoc. apply E.
 Qed.
 
-Lemma get_rr_ordinary w off owner' ty cl ttl fs rd' end_ ext sec count i fu m :
-  RRreads w off owner' ty cl ttl fs rd' end_ ->
+Lemma get_rr_ordinary o w off abs' owner' ty cl ttl fs rd' end_ ext sec count i fu m :
+  RRreads o o w off abs' owner' ty cl ttl fs rd' end_ ->
   ty <> tOPT -> ty <> tTSIG -> schema_of cl ty = Some fs -> 0 <= ttl <= 2147483647 ->
-  get_rr (w ++ ext) None po0 false sec count i off fu m
+  get_rr (w ++ ext) o po0 false sec count i off fu m
   = Ok (end_, fu, set_sec m sec (find_add (get_sec m sec) owner' cl ty (rd_covers ty rd') None fu
                                           (fun rs => rrset_add rs rd' ttl))).
 Proof.
